@@ -86,6 +86,6 @@ fuzz_target!(|data: &[u8]| {
         mdc: vec![("k".into(), text(&mut u))],
     };
     let script: Vec<u8> = (0..u.int_in_range(0..=4).unwrap_or(0)).map(|_| u.int_in_range(0..=4u8).unwrap_or(0)).collect();
-    let case = lv::c09::Case { pat, recs: vec![rec], script, thread: None };
+    let case = lv::c09::Case { pat, recs: vec![rec], script, thread: None, prior_unwind: None };
     report("C09", lv::c09::check(&case, &mut lv::engine::Obs::default()));
 });
